@@ -732,6 +732,56 @@ class FnBounds(object):
         self.fresh.add(a)
         return atom(a)
 
+    def member_returned(self, call):
+        """`recv.acc()` where acc's body is `return <member>;` -> canonical text `recv.<member>` (or None)"""
+        g_ = self.db.fn(call.get("callee")) if call.get("callee") else None
+        r = cfg.receiver(call)
+        if g_ is None or r is None or cfg.args(call) or not g_.get("body"):
+            return None
+        st_ = g_["body"].get("c", [])
+        if len(st_) != 1 or st_[0]["k"] != "ReturnStmt" or not st_[0].get("c"):
+            return None
+        rx = facts.strip_all(st_[0]["c"][0])
+        if rx["k"] == "MemberExpr" and rx.get("isfield") and rx.get("c") and strip(rx["c"][0])["k"] == "CXXThisExpr":
+            recv = self.canon_name(strip(r))
+            if recv == "this":
+                return rx["member"]
+            return "%s%s%s" % (recv, "->" if is_ptr(facts.ty(self.f, strip(r))) else ".", rx["member"])
+        return None
+
+    def canon_name(self, obj):
+        """canonical text naming the object an expression designates (looks through reference locals bound once
+        to a member-returning accessor and through such accessor calls)"""
+        obj = strip(obj)
+        if obj["k"] == "DeclRefExpr" and obj.get("var") and not obj.get("parm"):
+            t = facts.ty(self.f, obj)
+            init = self.ref_inits().get(obj["var"])
+            if init is not None:
+                x = facts.strip_all(init)
+                if x["k"] == "CXXMemberCallExpr":
+                    m = self.member_returned(x)
+                    if m:
+                        return m
+                if x["k"] in ("DeclRefExpr", "MemberExpr"):
+                    return self.canon_name(x)
+        if obj["k"] == "CXXMemberCallExpr":
+            m = self.member_returned(obj)
+            if m:
+                return m
+        if obj["k"] == "UnaryOperator" and obj.get("op") == "*":
+            return "(*%s)" % self.canon_name(obj["c"][0])
+        return facts.expr_str(obj)
+
+    def ref_inits(self):
+        if getattr(self, "_refinit", None) is None:
+            self._refinit = {}
+            for n in facts.fn_nodes(self.f):
+                if n["k"] == "VarDecl" and n.get("c"):
+                    t = facts.tyi(self.f, n.get("t"))
+                    if t and t.get("k") == "ref":
+                        self._refinit[n["var"]] = n["c"][0]
+        return self._refinit
+
     def vec_base(self, obj):
         """base atom of the storage of a std::vector<uint8_t>-like object expression"""
         t = facts.ty(self.f, obj)
@@ -741,7 +791,7 @@ class FnBounds(object):
         if not (nm.startswith("std::vector<unsigned char") or nm.startswith("std::vector<char") or
                 nm.startswith("std::array<unsigned char") or nm.startswith("std::basic_string<char")):
             return None
-        name = facts.expr_str(obj)
+        name = self.canon_name(obj)
         b = ("vec", name)
         self.extent[b] = atom(("call", name + ".size()"))
         if nm.startswith("std::basic_string<char"):
@@ -790,6 +840,25 @@ class FnBounds(object):
                     return av
                 if cname == "pointer":
                     return base + ext - av
+            if cname == "size" and not cfg.args(e) and self.vec_base(rs) is not None:
+                return atom(("call", self.vec_base(rs)[1] + ".size()"))
+            if not cfg.args(e) and e.get("callee", "").endswith(" const") and self.db.fn(e.get("callee")) is not None:
+                # accessor `return cast(member.size());`
+                g2 = self.db.fn(e["callee"])
+                st2 = g2["body"].get("c", []) if g2.get("body") else []
+                if len(st2) == 1 and st2[0]["k"] == "ReturnStmt" and st2[0].get("c"):
+                    rx = facts.strip_all(st2[0]["c"][0])
+                    if rx["k"] == "CXXMemberCallExpr" and rx.get("cname") == "size" and not cfg.args(rx):
+                        mo = strip(cfg.receiver(rx)) if cfg.receiver(rx) is not None else None
+                        if mo is not None and mo["k"] == "MemberExpr" and mo.get("isfield") and mo.get("c") and \
+                                strip(mo["c"][0])["k"] == "CXXThisExpr":
+                            recv = self.canon_name(rs)
+                            nm_ = mo["member"] if recv == "this" else "%s%s%s" % (recv, "->" if is_ptr(facts.ty(f, rs)) else ".", mo["member"])
+                            a_ = ("call", nm_ + ".size()")
+                            if is_int(t) and t.get("w", 64) < 64:
+                                # the accessor narrows: equal when the size fits (buffers < 4 GiB)
+                                self.ub.setdefault(a_, (1 << 32) - 1)
+                            return atom(a_)
             if cname in ("begin", "end", "cbegin", "cend") and not cfg.args(e) and self.vec_base(rs) is not None:
                 vb = self.vec_base(rs)
                 if cname in ("begin", "cbegin"):
@@ -1567,6 +1636,14 @@ class FnBounds(object):
             st = self.plain_call(n, st, pos)
             return self.flush_pending(st)
         if k == "CXXOperatorCallExpr":
+            if n.get("op") == "[]" and len(n.get("c", [])) == 3:
+                par = self.g.parent.get(n["id"])
+                while par is not None and par["k"] in ("ParenExpr", "ImplicitCastExpr") and par.get("ck") != "LValueToRValue":
+                    par = self.g.parent.get(par["id"])
+                addr_only = par is not None and par["k"] == "UnaryOperator" and par.get("op") == "&"
+                P = self.container_data(n, st)
+                if P is not None and not addr_only:      # `&v[i]` only forms a pointer; its uses are checked
+                    self.oblige(n, "index", P, const(1), st, facts.expr_str(n)[:60])
             st = self.plain_call(n, st, pos)
             return self.flush_pending(st)
         return st
